@@ -986,6 +986,10 @@ def batch_norm(x:Tensor, weight:Tensor=None, bias:Tensor=None, running_mean:Tens
     if bias is not None and not isinstance(bias, Tensor):
         raise TypeError(f"Expected bias to be a Tensor but got {type(bias)}")
     
+    for name, t in (("weight", weight), ("bias", bias), ("running_mean", running_mean), ("running_var", running_var)):
+        if t is not None and (x.ndim < 2 or tuple(t.shape) != (x.shape[1],)): # anything else would broadcast silently
+            raise ValueError(f"Expected {name} of shape (C,) for an input of shape (N, C, *), but got {tuple(t.shape)} for input {tuple(x.shape)}")
+    
     if not training and (running_mean is None) != (running_var is None):
         # backward knows two cases only: batch statistics or running statistics, not one of each
         raise ValueError("Expected running_mean and running_var to be given together when training=False")
